@@ -492,7 +492,7 @@ func modesMethodsWhileRunning(out *scenOut, r *rng, exit string) {
 	done := make(chan error, 1)
 	go func() { _, err := p.Run(); done <- err }()
 	if !waitFor(3*time.Second, func() bool { return ctl.log.has("view-exit", "") }) {
-		p.Kill()
+		go p.Kill()
 		<-done
 		return
 	}
@@ -536,7 +536,7 @@ func modesMethodsWhileRunning(out *scenOut, r *rng, exit string) {
 	case "quit":
 		p.Quit()
 	case "kill":
-		p.Kill()
+		go p.Kill()
 	}
 	select {
 	case <-done:
@@ -567,7 +567,10 @@ func slowOutputAtExit(out *scenOut, cause string) {
 	g := newGate(false)
 	buf := &safeBuffer{gate: g}
 	var ups int32
-	ctl.viewOf = func(version, n int) string { atomic.StoreInt32(&ups, int32(n)); return fmt.Sprintf("view %d\nline\n", n) }
+	ctl.viewOf = func(version, n int) string {
+		atomic.StoreInt32(&ups, int32(n))
+		return fmt.Sprintf("view %d\nline\n", n)
+	}
 	parent, cancel := context.WithCancel(context.Background())
 	defer cancel()
 	run := startProgram(ctl, buf, tea.WithInput(nil), tea.WithoutSignalHandler(), tea.WithFPS(60), tea.WithContext(parent),
@@ -635,7 +638,7 @@ func modesWhileFrameStalls(out *scenOut, r *rng) {
 	if !g.waitArrived(2 * time.Second) {
 		out.record("modes-while-frame-stalls (writer not reached)", "")
 		g.open()
-		run.p.Kill()
+		go run.p.Kill()
 		run.wait(3 * time.Second)
 		return
 	}
@@ -671,7 +674,7 @@ func modesWhileFrameStalls(out *scenOut, r *rng) {
 	}
 	run.p.Quit()
 	if !run.wait(4 * time.Second) {
-		run.p.Kill()
+		go run.p.Kill()
 		run.wait(3 * time.Second)
 	}
 }
